@@ -3,7 +3,7 @@
 From ToughV Require Import Model.Base Model.Pct Model.Json Model.CJson Model.ClientRun Model.TName
      Model.Glob Model.Deleg Model.Keys Model.Editor.
 From ToughV Require Import Model.RootCmd.
-From ToughV Require Import Model.Http Model.Schema Model.Sig Model.Client Model.EditorRT Model.EdOps.
+From ToughV Require Import Model.Http Model.Schema Model.Sig Model.Client Model.EditorRT Model.EdOps Model.Url.
 
 Definition run_C16 (op : N) (a : list tree) : tree :=
   match op, a with
@@ -304,6 +304,30 @@ Definition run_C10_prog (a : list tree) : tree :=
   | _ => T [L 999]
   end.
 
+(* Model/Url.v: [base components, file name] -> what the joined URL opens, whether the name is plain, where
+   Path::join puts it; [file name, content] -> the answer of a fetch after putting the content *)
+Definition of_url_res (r : url_res) : tree :=
+  match r with
+  | UPath comps tr => T [L 0; T (map of_bytes comps); of_bool tr]
+  | UScheme => T [L 1]
+  | UHost => T [L 2]
+  | UDrive => T [L 3]
+  end.
+Definition run_URL (op : N) (a : list tree) : tree :=
+  match op, a with
+  | 0, [base; file] =>
+      let b := map t_bytes (t_list base) in
+      T [of_url_res (url_join b (t_bytes file)); of_bool (url_plain (t_bytes file)); T (map of_bytes (put_comps b (t_bytes file)))]
+  | 1, [file; content] =>
+      let b := [[116]] in
+      match fs_fetch (fs_put (put_comps b (t_bytes file)) (t_bytes content) []) b (t_bytes file) with
+      | FsFound v => T [L 0; of_bytes v]
+      | FsNotFound => T [L 1]
+      | FsRefused => T [L 2]
+      end
+  | _, _ => T [L 999]
+  end.
+
 Definition run_case (t : tree) : tree :=
   match t with
   | T (L p :: L op :: args) =>
@@ -318,6 +342,7 @@ Definition run_case (t : tree) : tree :=
       else if p =? 6 then run_client op args
       else if p =? 20 then run_C20 op args
       else if p =? 18 then run_C18 op args
+      else if p =? 21 then run_URL op args
       else T [L 999]
   | _ => T [L 999]
   end.
